@@ -5,7 +5,7 @@ import json, re
 DESC = {
  "C01": ("determinism alphabet in 3 twin processes + GoLevelDB twin; crash enumeration with long-running twin", "twins depth 2, crash depth 1", "twins depth 3 (4 processes), crash depth 2"),
  "C02": ("`union-supply`, `supply-orders` + supply/event oracle", "depth 4 / 5", "depth 6 / 8 (12 + 8 min)"),
- "C03": ("`po-3of3-min2` (5 gov changes, 3 decide&gov, 1 rolled-back proposal, upper-case re-decisions, the in-place upgrade), `po-same-block` (all ordered pairs of decisions / whitelist changes in one block), `po-1of1`", "depth 5 / 3 / 4", "depth 6 / 5 / 6 (12 + 8 + 5 min)"),
+ "C03": ("`po-3of3-min2` (5 gov changes, 3 decide&gov, 1 rolled-back proposal, upper-case re-decisions, the in-place upgrade), `po-same-block` (all ordered pairs of decisions / whitelist changes in one block), `po-1of1`, `po-out-of-order`, `po-decided-then-gov`", "depth 5 / 3 / 4 / 4 / 3", "depth 6 / 5 / 6 / 6 / 5 (12 + 8 + 5 + 5 + 5 min)"),
  "C04": ("`efund` (prefix of 12 blocks locks eFUND for 4 payer classes and sets up fee grants), `supply-orders`, `efund-last` (one holder of all locked eFUND)", "depth 3 after prefix / 5 / 4", "depth 5 / 7 / 8 (15 + 6 + 5 min)"),
  "C05": ("`efund`, `efund-last`", "depth 3 after prefix / 4", "depth 5 / 8 (15 + 5 min)"),
  "C06": ("4 base states x sequences <= 3 (<= 2 for the stale-schedule states, in re-check mode and with a self fee granter) x wrapping x offered amounts x extra denom x mode through `CheckTx`", "len <= 3", "len <= 4 (15 min)"),
@@ -14,10 +14,10 @@ DESC = {
  "C09": ("`anchor-identity` (3 registrants, field sizes in bytes incl. multi-byte characters, empty optional fields, upper-case owner, every (signer,id), simulated and rolled-back registrations)", "depth 3", "depth 6 (15 min)"),
  "C10": ("`streams` (3 pairs + a 32-byte receiver, 2 denoms, fee changes incl. rolled back, simulated claim, escrow sends, escrow as receiver), `streams-same-block` (all ordered pairs on one stream)", "depth 4 / 3", "depth 7 / 5 (15 + 6 min)"),
  "C11": ("`timing-small` (sub-second steps, two operations per block, fee 0 and 1), `timing-extreme` (317 y, 2^62/s, jumps to Z-1 s / Z), `timing-same-block` + grid", "depth 4 / 4 / 3", "depth 6 / 7 / 5 (10 + 6 + 6 min)"),
- "C12": ("`stranded` (10^21, 2^63, 2^100 deposits; claim/cancel/top-up around Z; 4 fee rates; blocked receivers in both spellings) + grid", "depth 4", "depth 6 (12 min)"),
+ "C12": ("`stranded` (10^21, 2^63, 2^100 deposits; claim/cancel/top-up around Z; 4 fee rates; blocked receivers in both spellings; a sender topping up with all it holds) + grid", "depth 4", "depth 6 (12 min)"),
  "C13": ("6 base histories x (18 message types x 7 named x 6 keys + 24 nested parameter updates + 14 types forged with 2 fee granters and behind 2 genuine registrations + 14 types in amino-JSON mode as signed and with every field altered after signing), every transition on a fresh node", "depth 1", "depth 2, all pairs (4 min each)"),
- "C14": ("`union-halt`, `union-halt-gov-order`, `orders-in-flight` (two signers, an order followed from its first accept to minting, incl. through the in-place upgrade), `union-atomic` (3-msg txs failing at every k, by error and by panic, rolled-back whitelisting)", "depth 3 / 3 / 4 / 3", "depth 5 / 5 / 7 / 5 (10 + 8 + 8 + 8 min)"),
- "C15": ("`union-genesis`, `genesis-rich` (38-block prefix), `genesis-many` (105 entities per kind), `genesis-last-efund` + export/import/continuation visitor on every state", "depth 2 / 2 / 1 / 2", "depth 4 / 4 / 2 / 4, two-step continuation (10 + 10 + 5 + 5 min)"),
+ "C14": ("`union-halt`, `union-halt-gov-order`, `orders-in-flight` (two signers, an order followed from its first accept to minting, incl. through the in-place upgrade), `po-decided-then-gov`, `union-atomic` (3-msg txs failing at every k, by error and by panic, rolled-back whitelisting)", "depth 3 / 3 / 4 / 3 / 3", "depth 5 / 5 / 7 / 5 / 5 (10 + 8 + 8 + 5 + 8 min)"),
+ "C15": ("`union-genesis`, `genesis-rich` (38-block prefix), `genesis-many` (105 entities per kind), `genesis-last-efund`, `genesis-efund` + export/import/continuation visitor on every state", "depth 2 / 2 / 1 / 2 / 1", "depth 4 / 4 / 2 / 4 / 2, two-step continuation (10 + 10 + 5 + 5 + 5 min)"),
  "C16": ("grid + `params-live` (<= 2 real governance updates out of 20 valid / invalid / rolled back, the in-place upgrade, both anchoring modules incl. nested purchases, fee probe in both modes)", "depth 4", "depth 6 (15 min)"),
  "C17": ("`efund` with 6 denominations and `efund-last` + supply-query visitor (forward and reverse paging, escrow balance as the truth for locked eFUND)", "depth 3 / 4", "depth 5 / 7 (12 + 4 min)"),
  "C18": ("key grid + keeper round trips + listings vs point reads + genesis-import write path", "complete", "same"),
